@@ -401,7 +401,7 @@ static void do_obs(std::vector<std::string> const& tk)
     fflush(stdout);
     pid_t pid = fork();
     if (pid == 0) {
-      alarm(5);
+      alarm(15);
       int devnull = open("/dev/null", O_WRONLY);
       dup2(devnull, 2);
       auto* q = s4u::MessageQueue::by_name("q" + tk.at(2))->get_impl();
@@ -438,7 +438,7 @@ static void do_deser(std::vector<std::string> const& tk)
   fflush(stdout);
   pid_t pid = fork();
   if (pid == 0) {
-    alarm(5);
+    alarm(15);
     Loop lp;
     std::vector<unsigned char> bytes;
     for (size_t i = 1; i < tk.size(); i++)
